@@ -39,7 +39,6 @@ WellFormed(t) ==
   /\ Len(t.eref) = t.ne /\ Len(t.erefR) = t.ne /\ Len(t.erefC) = t.ne
   /\ \A p \in DOMAIN t.gref : Len(t.gref[p]) = Len(t.chan)
   /\ \A p \in DOMAIN t.eref : Len(t.eref[p]) = Len(t.chan)
-  /\ (t.full => (Len(t.gp) = t.ntheta * t.nphi /\ Len(t.w) = t.ntheta))
   /\ \A i \in DOMAIN t.events : t.events[i].ev \in Events
 
 (* expected values at the reference points: exp[p] belongs to observation ix[p] *)
@@ -86,6 +85,7 @@ CheckSynthesis(t, st, e) ==
   IF ~MatchesExp(st.func, e.obs, st.gexp, t.ri) THEN "REJECT SynthRef:" \o e.ev ELSE
   IF t.kind = "real" /\ e.cx /\ ~ImagZero(e.obs) THEN "REJECT RealValued:" \o e.ev ELSE
   IF st.last > 0 /\ ~SameGrid(e.obs, t.events[st.last].obs) THEN "REJECT RouteGrid:" \o e.ev ELSE
+  IF e.pv /\ ~(t.full /\ Len(t.gp) = t.ntheta * t.nphi /\ Len(t.w) = t.ntheta) THEN "OOD harness-parseval-grid" ELSE
   IF e.pv /\ ~ParsevalHolds(e.obs, t.w, t.ntheta, t.nphi, Energy(t.L, t.kind, st.func))
      THEN "REJECT Parseval:" \o e.ev ELSE ""
 
